@@ -578,7 +578,14 @@ def r14_3(ctx):
                                    arg_pred=lambda t: has_call(C.trace(ri, t["args"][0]), ROLE["tag_try_store"])) | \
         bool_call_edges(ri, lib, "std::result::Result::<T, E>::is_ok", False,
                         arg_pred=lambda t: has_call(C.trace(ri, t["args"][0]), ROLE["tag_try_store"])) | \
-        enum_edges(ri, lib, "std::result::Result", lambda vs: vs == {"Err"}, src_pred=lambda c: has_call(c.src, ROLE["tag_try_store"]))
+        enum_edges(ri, lib, "std::result::Result", lambda vs: vs == {"Err"}, src_pred=lambda c: has_call(c.src, ROLE["tag_try_store"])) | \
+        enum_edges(ri, lib, "std::option::Option", lambda vs: vs == {"Some"}, src_pred=lambda c: bool(c.src) and all(
+            # `try_store(..).err()` is Some exactly when the store failed
+            l.kind == "call" and C.callee_name(l.data) == "std::result::Result::<T, E>::err" and
+            has_call(C.trace(ri, l.data["args"][0]), ROLE["tag_try_store"]) for l in c.src)) | \
+        enum_edges(ri, lib, "std::option::Option", lambda vs: vs == {"None"}, src_pred=lambda c: bool(c.src) and all(
+            l.kind == "call" and C.callee_name(l.data) == "std::result::Result::<T, E>::ok" and
+            has_call(C.trace(ri, l.data["args"][0]), ROLE["tag_try_store"]) for l in c.src))
     fs = calls_to(ri, ROLE["format_directive_output"])
     if not fs:
         ctx.anchor_missing("format_directive_output call in the line processor")
@@ -851,7 +858,16 @@ def r14_6(ctx):
             if captured and keeps_not_contained:
                 removal_ok = True
                 rem.append((bb, t))
-        if removal_ok and pushes_val and key_push:
+        # remove-then-inject: `if let Some(content) = stored.remove(key) { push(normalised content) }` — what is injected is the value just
+        # taken out of the store, so it cannot be substituted again
+        rm_some = enum_edges(inj, lib, "std::option::Option", lambda vs: vs == {"Some"}, src_pred=lambda c: any(
+            l.kind == "call" and C.callee_name(l.data) == "std::collections::HashMap::<K, V, S, A>::remove" and
+            has_field(C.trace(inj, l.data["args"][0], through_fields=True), "stored") for l in c.src))
+        if pushes_val and rm_some and all(C.guarded(inj, bb, rm_some) for bb, t in pushes_val) and all(
+                has_call(C.trace(inj, x.data["args"][0]), "std::collections::HashMap::<K, V, S, A>::remove")
+                for bb, t in pushes_val for x in C.trace(inj, t["args"][1], through_fields=True) if leaf_is_call(x, ROLE["replace_line_ending"])):
+            ctx.ok("inject_tags substitutes exactly the value it has just removed from the store", site=ctx.site(inj, pushes_val[0][0]))
+        elif removal_ok and pushes_val and key_push:
             # the key is queued for removal on every path that substituted its value (before the next loop iteration / exit)
             ok = True
             for bb, t in pushes_val:
@@ -1232,8 +1248,14 @@ def _component_deltas(prog, b):
                     rv2 = ds[0][3]["rv"]
                     p = rv2.get("pl") if rv2["k"] in ("ref", "copyforderef") else (C.op_place(rv2["op"]) if rv2["k"] == "use" else None)
                 return None
-            if nm == "<std::path::PathBuf as std::clone::Clone>::clone" and any(l.kind == "param" and l.data == p_self for l in C.trace(b, t["args"][0])):
-                st[dest] = (frozenset([0]), False)
+            if nm in ("<std::path::PathBuf as std::clone::Clone>::clone", "std::path::Path::to_path_buf",
+                      "<std::path::Path as std::borrow::ToOwned>::to_owned", "std::borrow::ToOwned::to_owned"):
+                # a copy: of a working copy (same shape) or of the source path itself (delta 0)
+                tl = target(0)
+                if tl is not None:
+                    st[dest] = st[tl]
+                elif any(l.kind == "param" and l.data == p_self for l in C.trace(b, t["args"][0])):
+                    st[dest] = (frozenset([0]), False)
             elif nm == SET_EXT:
                 tl = target(0)
                 if tl is not None:
@@ -1574,6 +1596,9 @@ def r14_8(ctx):
         if cl is None:
             ctx.unverified("sort without a local key / comparator closure", site=ctx.site(inj, bb))
             continue
+        elem_ty = None
+        if len(cl.locals) > 2:
+            elem_ty = re.sub(r"^&(mut )?", "", cl.locals[2]["ty"])
         # fields of the element the closure reads
         keys = set()
         for cbb, si, st in cl.stmts():
@@ -1599,6 +1624,9 @@ def r14_8(ctx):
                 for abb, st in [(x, y) for x, _si, y in b2.stmts() if y["k"] == "assign" and y["rv"]["k"] == "aggregate"]:
                     a = st["rv"]["agg"]
                     if not ((a["k"] == "tuple" and owner == "(tuple)") or (a["k"] == "adt" and a.get("adt") == owner)):
+                        continue
+                    # only the elements of the sorted collection: same type as what the key closure is handed
+                    if elem_ty and not st["lhs"]["p"] and b2.locals[st["lhs"]["l"]]["ty"] != elem_ty:
                         continue
                     if idx is None or idx >= len(st["rv"]["ops"]):
                         continue
